@@ -474,7 +474,7 @@ func (p PtrV) elemKeyOf() string {
 func (e *Engine) subRef(t types.Type, i int, ref *Term) *Term {
 	name := "sub:" + fieldKey(t, i)
 	c := e.C
-	subNames[Sanitize(name)] = fieldKey(t, i)
+	e.subNames[Sanitize(name)] = fieldKey(t, i)
 	if !e.subAx[name] {
 		e.subAx[name] = true
 		r := c.BoundVar("r", Int)
@@ -757,9 +757,6 @@ func (e *Engine) isFreshTerm(t *Term) bool {
 	}
 	return false
 }
-
-// subNames maps the (sanitised) name of a sub-object function to the heap key of its field.
-var subNames = map[string]string{}
 
 // rootOf is the allocation unit an address belongs to: elements of arrays and
 // embedded structs have the root of their container.
